@@ -325,7 +325,8 @@ def r14h(chk, rid='R14.h'):
         builtin.update(boot.expr(mem.value, {}))
     tok = sorted(builtin)[0]
     # generic profiles: distinct atoms, A shadows a built-in macro, B shadows a macro of A
-    A = ('A', {'pa': 'a{ma}{%s}' % tok, 'both': 'x{ma}'}, {'ma': 'A1', tok: 'A-%s' % tok})
+    # ... and A has macros built on macros, defined before the macro they depend on
+    A = ('A', {'pa': 'a{ma}{%s}' % tok, 'both': 'x{ma}', 'pchain': 'q{chain2}'}, {'chain2': 'c{chain1}', 'chain1': 'd{ma}', 'ma': 'A1', tok: 'A-%s' % tok})
     B = ('B', {'pb': 'b{mb}{ma}', 'both': 'y'}, {'mb': 'B1', 'ma': 'B-ma'})
     N = ('N', {'pn': 'n{%s}' % tok}, {})  # no macros
     F = ('F', {'pf': 'f{mf}'}, {'mf': 'F1'})  # fresh macros
